@@ -610,6 +610,9 @@ def raw_extrinsic_metadata_git_object(
             value: bytes
             if key == "path":
                 value = getattr(metadata, key)
+            elif key == "visit":
+                # "%d": a bool is an int for the validators and must print as one
+                value = b"%d" % getattr(metadata, key)
             else:
                 value = str(getattr(metadata, key)).encode()
 
@@ -652,7 +655,8 @@ def extid_git_object(extid: model.ExtID) -> bytes:
     ]
     extid_version = extid.extid_version
     if extid_version != 0:
-        headers.append((b"extid_version", str(extid_version).encode("ascii")))
+        # "%d": a bool is an int for the validators and must print as one
+        headers.append((b"extid_version", b"%d" % extid_version))
 
     headers.extend(
         [
